@@ -824,8 +824,11 @@ def format_summary(obj: model.Documentable) -> Tag:
     with source.docstring_linker.switch_context(None):
         # ParserErrors will likely be reported by the full docstring as well,
         # so don't spam the log, pass report=False.
+        # The summary that can't be rendered is the one of obj, which is not always 
+        # the object holding the docstring (inherited docstrings, variables documented 
+        # in the docstring of their class or module).
         stan = safe_to_stan(parsed_doc, source.docstring_linker, source, report=False,
-                fallback=format_summary_fallback)
+                fallback=lambda errs, doc, _: format_summary_fallback(errs, doc, obj))
 
     return stan
 
